@@ -422,6 +422,12 @@ def run_openloop_case(sh, case):
     top.set_metadata(PrintTextWavePass.enable, True)
     top.apply(GenDAGPass()); top.apply(OpenLoopCLPass(print_line_trace=False))
     stim = [rng.choice([0, 255, rng.getrandbits(8)]) for _ in range(rng.randrange(6, 20))]
+    off = 0
+    if rng.random() < 0.5:
+      # the run starts with sim_reset(): the cycles it clocks come first in both records (their number is read from the text wave)
+      top.sim_reset()
+      off = len(top.get_metadata(PrintTextWavePass.textwave_dict).get("s.inw", []))
+      sh.count("openloop_designs_started_with_sim_reset")
     for v in stim:
       top.push(v); top.pull()
     top.push(0)          # completes the last cycle
@@ -444,15 +450,23 @@ def run_openloop_case(sh, case):
       ser = changes.get(byname[vn], [])
       for k in range(n):
         sh.count("openloop_signal_cycle_comparisons")
-        got = vcdparse.value_at(ser, 100 * k)
+        got = vcdparse.value_at(ser, 100 * (k + off))
         if got != vals[k]:
           sh.violation("vcd-value-differs-from-simulator-value-at-the-clock-edge", {"signal": pth, "cycle": k, "vcd": got, "model": vals[k], "pushed": stim[:k + 1],
                        "stream": "open-loop pass group", "register_chain_depth": depth}, case=("openloop", case)); return
-        if pth in tw and k < len(tw[pth]) and int(tw[pth][k][2:], 2) != vals[k]:
-          sh.violation("textwave-value-differs-from-simulator-value", {"signal": pth, "cycle": k, "textwave": tw[pth][k], "model": vals[k],
+        if pth in tw and k + off < len(tw[pth]) and int(tw[pth][k + off][2:], 2) != vals[k]:
+          sh.violation("textwave-value-differs-from-simulator-value", {"signal": pth, "cycle": k, "textwave": tw[pth][k + off], "model": vals[k],
                        "stream": "open-loop pass group"}, case=("openloop", case)); return
       if pth not in tw:
         sh.violation("textwave-misses-signals", {"missing": [pth], "stream": "open-loop"}, case=("openloop", case)); return
+    # the clock toggles once per cycle: high at 100 t, low at 100 t + 50, for every cycle either record holds
+    if "clk" in byname:
+      cser = changes.get(byname["clk"], [])
+      for t in range(n + off):
+        sh.count("openloop_clock_edges_checked")
+        if vcdparse.value_at(cser, 100 * t) != 1 or vcdparse.value_at(cser, 100 * t + 50) != 0:
+          sh.violation("clock-does-not-toggle-once-per-cycle", {"cycle": t, "clk_at_edge": vcdparse.value_at(cser, 100 * t), "clk_half_a_cycle_later": vcdparse.value_at(cser, 100 * t + 50),
+                       "cycles_clocked_by_sim_reset": off, "stream": "open-loop pass group"}, case=("openloop-clk", case)); return
     sh.count("openloop_designs"); sh.fp(("openloop", depth, tuple(stim[:4])))
   except Exception as e:
     sh.inconclusive("openloop-harness:" + type(e).__name__)
